@@ -341,13 +341,10 @@ Definition ack_one (s : sink) (k id : N) : sink :=
   else if ((k =? 4) || (k =? 5)) && negb (client s) then s
   else pkt_ack s k id.
 
-Fixpoint ack_pairs (s : sink) (l : list N) (fuel : nat) : sink :=
-  match fuel with
-  | O => s
-  | S f => match l with
-           | k :: id :: r => ack_pairs (ack_one s k (U16 id)) r f
-           | _ => s
-           end
+Fixpoint ack_list (s : sink) (l : list (N * N)) : sink :=
+  match l with
+  | [] => s
+  | (k, id) :: r => ack_list (ack_one s k id) r
   end.
 
 (* wait_publish_response(id, ack, pkt, payload): inl c = Ok(rx), inr status = Err *)
@@ -685,26 +682,70 @@ Definition drop_stream (s : sink) (t : N) : sink :=
   end.
 
 (* ---------------------------------------------------------------- operations, observation, engines *)
-Definition sink_step (s : sink) (op : list N) : sink :=
-  match op with
-  | 1 :: t :: k :: id :: rest => start_task s t k (U16 id) (match rest with sz :: _ => sz | [] => 0 end)
-  | [1; t; k] => start_task s t k 0 0
-  | 2 :: t :: _ => poll_task s t
-  | 3 :: t :: _ => drop_task s t
-  | 4 :: l => ack_pairs s l (length l)
-  | 5 :: l => ack_pairs s l (length l)
-  | 6 :: t :: _ => release_task s t
-  | 7 :: t :: _ => drop_receipt s t
-  | 8 :: b :: _ => do_wrb s (negb (b =? 0))
-  | 9 :: n :: _ => do_set_cap s n
-  | 10 :: _ => do_close s
-  | 11 :: _ => do_force_close s
-  | 12 :: n :: _ => set_idx s (U16 n)
-  | 13 :: t :: n :: _ => chunk_task s t n
-  | [13; t] => chunk_task s t 0
-  | 14 :: t :: _ => drop_stream s t
-  | 15 :: t :: _ => drop_chunk s t
-  | _ => s
+(* one operation = one atomic segment of the schedule *)
+Inductive op :=
+| OStart (t k id size : N)      (* call the API for task t and poll the returned future once *)
+| OPoll (t : N)                 (* poll task t once *)
+| ODrop (t : N)                 (* drop task t's pending future *)
+| OAcks (l : list (N * N))      (* the peer's acknowledgements (kind, packet id) arriving in one write *)
+| ORelease (t : N)              (* PublishReceived::release(), polled once *)
+| ODropReceipt (t : N)          (* drop the PublishReceived *)
+| OWrb (on : bool)              (* Control::WrBackpressure *)
+| OSetCap (n : N)
+| OClose                        (* MqttSink::close() *)
+| OForceClose                   (* MqttSink::force_close() *)
+| OSetIdx (n : N)               (* verification hook: preset inflight_idx *)
+| OChunk (t n : N)              (* StreamingPayload::send(n bytes) polled once / resume the pending one *)
+| ODropStream (t : N)           (* drop the StreamingPayload *)
+| ODropChunk (t : N)            (* drop the pending StreamingPayload::send future *)
+| ONop.
+
+Definition sink_step (s : sink) (o : op) : sink :=
+  match o with
+  | OStart t k id size => start_task s t k id size
+  | OPoll t => poll_task s t
+  | ODrop t => drop_task s t
+  | OAcks l => ack_list s l
+  | ORelease t => release_task s t
+  | ODropReceipt t => drop_receipt s t
+  | OWrb on => do_wrb s on
+  | OSetCap n => do_set_cap s n
+  | OClose => do_close s
+  | OForceClose => do_force_close s
+  | OSetIdx n => set_idx s n
+  | OChunk t n => chunk_task s t n
+  | ODropStream t => drop_stream s t
+  | ODropChunk t => drop_chunk s t
+  | ONop => s
+  end.
+
+(* numeric form of the operations (see harness/src/engines/sink.rs) *)
+Fixpoint pairs_of (l : list N) : list (N * N) :=
+  match l with
+  | k :: id :: r => (k, U16 id) :: pairs_of r
+  | _ => []
+  end.
+
+Definition parse_op (f : list N) : op :=
+  match f with
+  | 1 :: t :: k :: id :: rest => OStart t k (U16 id) (match rest with sz :: _ => sz | [] => 0 end)
+  | [1; t; k] => OStart t k 0 0
+  | 2 :: t :: _ => OPoll t
+  | 3 :: t :: _ => ODrop t
+  | 4 :: l => OAcks (pairs_of l)
+  | 5 :: l => OAcks (pairs_of l)
+  | 6 :: t :: _ => ORelease t
+  | 7 :: t :: _ => ODropReceipt t
+  | 8 :: b :: _ => OWrb (negb (b =? 0))
+  | 9 :: n :: _ => OSetCap n
+  | 10 :: _ => OClose
+  | 11 :: _ => OForceClose
+  | 12 :: n :: _ => OSetIdx (U16 n)
+  | 13 :: t :: n :: _ => OChunk t n
+  | [13; t] => OChunk t 0
+  | 14 :: t :: _ => ODropStream t
+  | 15 :: t :: _ => ODropChunk t
+  | _ => ONop
   end.
 
 (* the connection settles after every operation: a close() in progress completes *)
@@ -732,11 +773,16 @@ Definition observe (s : sink) : list N :=
    b2n (negb (is_closed s) && shared_is_ready s); b2n (negb (is_closed s))]
     ++ obs_tasks (tasks s) ++ [255] ++ wire s.
 
+(* one operation of a case: the wire log is per operation; the connection settles afterwards *)
+Definition sink_op (s : sink) (o : op) : sink := settle (sink_step (set_wire s []) o).
+
+Definition run_from (s : sink) (ops : list op) : sink := fold_left sink_op ops s.
+
 Fixpoint run_ops (s : sink) (ops : list (list N)) : list (list N) :=
   match ops with
   | [] => []
-  | op :: r =>
-    let s1 := settle (sink_step (set_wire s []) op) in
+  | f :: r =>
+    let s1 := sink_op s (parse_op f) in
     observe s1 :: run_ops s1 r
   end.
 
